@@ -163,6 +163,9 @@ pub enum ReadKind {
     Slice { off: u16, len: u16 },
     Stream { reads: Vec<u16> },
     CutCut { off1: u16, len1: u16, off2: u16, len2: u16 },
+    /// take the region now, read it only after `later` further ops of this thread (its cluster
+    /// may have been evicted from the cache and re-decoded by others meanwhile)
+    Hold { later: u8 },
 }
 
 #[derive(Serialize, Deserialize, Clone, Debug, PartialEq, Eq)]
@@ -204,6 +207,7 @@ fn op_strategy() -> BoxedStrategy<Op> {
         2 => (any::<u16>(), any::<u16>()).prop_map(|(off, len)| ReadKind::Slice { off, len }),
         2 => prop::collection::vec(prop_oneof![Just(1u16), 1u16..16, Just(4096u16)], 1..4).prop_map(|reads| ReadKind::Stream { reads }),
         1 => (any::<u16>(), any::<u16>(), any::<u16>(), any::<u16>()).prop_map(|(off1, len1, off2, len2)| ReadKind::CutCut { off1, len1, off2, len2 }),
+        2 => (1u8..60).prop_map(|later| ReadKind::Hold { later }),
     ];
     (any::<u16>(), prop_oneof![2 => any::<u16>(), 1 => Just(0u16), 1 => Just(u16::MAX)], kind).prop_map(|(cluster, blob, kind)| Op { cluster, blob, kind }).boxed()
 }
@@ -253,6 +257,7 @@ fn do_read(pack: &jbk::reader::ContentPack, idx: u32, kind: &ReadKind) -> Result
                 }
             }
         }
+        ReadKind::Hold { .. } => unreachable!("handled by the caller"),
         ReadKind::CutCut { off1, len1, off2, len2 } => {
             let (o1, l1) = range_in(*off1, *len1, e.len());
             let s1 = r.cut(jbk::Offset::from(o1 as u64), jbk::Size::from(l1 as u64));
@@ -597,7 +602,27 @@ impl Property for C07 {
                         let ncl = sp.nclusters;
                         std::thread::spawn(move || -> Result<(), Failure> {
                             let mut mine = std::collections::BTreeSet::new();
+                            // regions taken earlier and read later: (due op index, content index, region)
+                            let mut held: Vec<(usize, u32, jbk::reader::ByteRegion)> = vec![];
+                            let check_held = |idx: u32, r: &jbk::reader::ByteRegion| -> Result<(), Failure> {
+                                let e = blob_bytes(idx);
+                                let mut v = Vec::with_capacity(e.len());
+                                if let Err(err) = r.stream().read_to_end(&mut v) {
+                                    fail!("read-error", "held region of content {idx}: {err}");
+                                }
+                                ensure!(v == e, "wrong-bytes", "held region of content {idx}: stale / foreign bytes after its cluster left the cache ({} vs {} bytes)", v.len(), e.len());
+                                Ok(())
+                            };
                             for (i, op) in list.iter().enumerate() {
+                                let mut k = 0;
+                                while k < held.len() {
+                                    if held[k].0 <= i {
+                                        let (_, idx, r) = held.swap_remove(k);
+                                        check_held(idx, &r)?;
+                                    } else {
+                                        k += 1;
+                                    }
+                                }
                                 let cl = match pattern {
                                     // thread t sweeps the clusters starting at a different phase
                                     Pattern::Sweep => ((i as u32) + (t as u32) * 5) % ncl,
@@ -605,8 +630,21 @@ impl Property for C07 {
                                 };
                                 let blob = pick(op.blob, BLOBS_PER_CLUSTER as usize) as u32;
                                 mine.insert(cl);
+                                if let ReadKind::Hold { later } = &op.kind {
+                                    let idx = cl * BLOBS_PER_CLUSTER + blob;
+                                    match pack.get_content(jbk::ContentIdx::from(idx)) {
+                                        Ok(Some(r)) => held.push((i + *later as usize, idx, r)),
+                                        Ok(None) => fail!("content-none", "content {idx} answers None"),
+                                        Err(err) => fail!("content-error", "content {idx}: {err}"),
+                                    }
+                                    total_ops.fetch_add(1, Ordering::Relaxed);
+                                    continue;
+                                }
                                 do_read(&pack, cl * BLOBS_PER_CLUSTER + blob, &op.kind)?;
                                 total_ops.fetch_add(1, Ordering::Relaxed);
+                            }
+                            for (_, idx, r) in held {
+                                check_held(idx, &r)?;
                             }
                             touched.lock().unwrap().extend(mine);
                             Ok(())
